@@ -95,6 +95,13 @@ def oracle(case):
                 P = None
             else:
                 P = est.predict_proba(Q)
+                # other read-only questions put to the model in between play no part
+                for name in ("find_active_points", "get_selection"):
+                    if hasattr(est, name):
+                        try:
+                            getattr(est, name)(Q) if name == "find_active_points" else getattr(est, name)()
+                        except Exception:
+                            pass
                 Ps = est.predict_proba(Q[idx]) if len(idx) else np.zeros((0, P.shape[1]))
                 if Ps.shape != (len(idx), P.shape[1]):
                     raise Violation(f"{label}: predict_proba of {len(idx)} rows has shape {Ps.shape}")
@@ -159,6 +166,8 @@ def oracle_large(case):
             if E._data_nonneg(s):
                 Q = np.abs(Q)
             P = est.predict_proba(Q)
+            if hasattr(est, "find_active_points"):
+                est.find_active_points(Q[:50])
             if P.shape != (m, s["n_clusters"]) or not np.all(np.isfinite(P)) or np.max(np.abs(P.sum(1) - 1)) > 1e-9:
                 bad = np.where(~(np.abs(P.sum(1) - 1) <= 1e-9))[0][:5] if P.shape[0] == m else []
                 raise Violation(f"{label}: predict_proba rows are not probability vectors (first offending rows {list(bad)})")
